@@ -22,7 +22,7 @@ Proof.
 Qed.
 
 Section MmrP.
-Variable Hm K : bytes -> bytes.
+Variable Hm : bytes -> bytes.
 Notation P_ := (P_ Hm).
 Notation append := (append Hm).
 Notation mtree := (mtree Hm).
@@ -314,7 +314,12 @@ Proof.
   unfold append_all in *. rewrite fold_left_app. cbn [fold_left]. rewrite append_weight, IH, app_length. reflexivity.
 Qed.
 
+End MmrP.
+
 (* ------------------------------------------------------------------ super-peak *)
+Section SuperPeakP.
+Variable K : bytes -> bytes.
+
 Lemma somes_map_Some (hs : list bytes) : somes (map Some hs) = hs.
 Proof. induction hs; cbn; congruence. Qed.
 
@@ -346,4 +351,4 @@ Proof.
   f_equal. f_equal. f_equal. exact IH.
 Qed.
 
-End MmrP.
+End SuperPeakP.
